@@ -126,7 +126,13 @@ class Engine:
             return ("bool", "and" if isinstance(e.op, ast.And) else "or", vals)
         if isinstance(e, ast.Compare):
             if len(e.ops) != 1:
-                raise Unsupported("chained compare")
+                # a < b < c  ==  (a < b) and (b < c)
+                vals = []
+                left = e.left
+                for op, right in zip(e.ops, e.comparators):
+                    vals.append(self.cmp(type(op).__name__, self.ev(left, p, fr), self.ev(right, p, fr)))
+                    left = right
+                return ("bool", "and", tuple(vals))
             a, b = self.ev(e.left, p, fr), self.ev(e.comparators[0], p, fr)
             return self.cmp(type(e.ops[0]).__name__, a, b)
         if isinstance(e, ast.Subscript):
@@ -506,6 +512,20 @@ class Engine:
             p.status = "raise"
             return [p]
         if isinstance(s, ast.Pass):
+            return [p]
+        if isinstance(s, ast.Delete):
+            for t in s.targets:
+                if isinstance(t, ast.Subscript):
+                    base = self.ev(t.value, p, fr)
+                    key = self.sv_key(t.value, p, fr)
+                    newv = ("mut", base, "__delitem__", (("opaque", ast.unparse(t.slice)),), s.lineno)
+                    if key:
+                        p.store[key] = newv
+                    p.effects.append(("mutate", base, "__delitem__", (("opaque", ast.unparse(t.slice)),), s.lineno))
+                elif isinstance(t, ast.Name):
+                    p.store.pop(("l", fr["id"], t.id), None)
+                else:
+                    raise Unsupported("del target")
             return [p]
         if isinstance(s, ast.Break):
             p.status = "break"
